@@ -131,7 +131,8 @@ VFaceVec(r) ==
                   Comb(r.op, ValAt(idx, IdxOf(from, c - 1)), ValAt(idx, IdxOf(from, c + 1))))
        IN IF r.out.dims # odims THEN "dims"
           ELSE IF r.out.shape # a.shape THEN "shape"
-          ELSE IF r.out.flat # e.flat THEN "values" ELSE "ok"
+          ELSE IF r.out.flat # e.flat THEN "values"
+          ELSE IF r.out.name # "v1" THEN "result-not-named-after-the-input" ELSE "ok"
 
 \* on a grid without face connections {axis: u} must behave exactly as u alone (validated by C01's geometry)
 VVecPlain(r) ==
